@@ -162,6 +162,21 @@ CLAIMED = {
              'constant folding must be exact); forms the library rejects with an explicit error are not cases.',
         technique='TLA+ grammar state machine (VFormGen.tla) + TLA+ semantics of the IR over GF(p) (VFormIR.tla): TLC evaluates denotation, raw DAG and finalized program exported from the real code and compares',
         design_ref='3 C06'),
+    'C01': dict(
+        text='spec/VFormGen.tla (Poly = TRUE) generates forms of the polynomial fragment with degree bookkeeping (trial, test, '
+             'coefficient degree); spec/VFormSemRat.tla computes the exact entries the form DENOTES: the abstract token semantics '
+             '(VFormAbs, the same module C06 uses over GF(p)) instantiated over the ring of polynomials in cell-local parameters '
+             'with rational coefficients, B-spline pieces of Galerkin1D/BSplineRef, chain rule for the affine geometry, '
+             'monomial-wise integration -- equal to the (p+1)-point Gauss sum for this fragment. Every form goes through the REAL '
+             'pipeline (parse_vf, finalize, code generation, Cython/C compiler, import, assemble) in a subprocess and up to 11 '
+             'entries per form are compared with the rationals (1e-10); entries of disjoint supports included. The rest of the '
+             'grammar (builtin functions, divisions) is covered by build + load + assemble + finiteness.',
+        note='Value clause decided only for the polynomial fragment on affine geometries, degrees <= 2, 2-D (3-D in thorough), '
+             'scalar basis functions, volume measure; NURBS/curved geometries, surface/boundary measures and vector-valued forms '
+             'are covered by C06 (IR semantics) and C09/C08 (shipped assemblers) but not by the exact-value comparison; about '
+             '22 compiled forms per quick run, 130 thorough.',
+        technique='TLA+ grammar state machine + exact denotational semantics in TLA+ (VFormAbs over a polynomial ring with rational coefficients) evaluated by TLC; real compile-and-assemble of every generated form compared entrywise',
+        design_ref='3 C01'),
 }
 
 NOT_BUILT = 'specification module not built yet (see DESIGN.md section 6); not claimed with a weaker technique'
